@@ -179,6 +179,10 @@ func BuildRoot(w *World, root string, lib *OpLib) {
 		// R1 with a governance-registered liquid vesting of an external asset: lp1 holds a ueden -> uelys
 		// vesting AND a uatom -> uatom one (MsgVestLiquid), both releasing from the next block on
 		prefix = []string{"perp_open_long_t1", "perp_open_short_t2", "llp_open_t1_x3", "swap_in_p1_usdc_atom_L", "swap_in_p2_elys_usdc_L", "gap_1d", "mc_claim_lp1", "commit_eden_lp1", "vest_eden_lp1", "stake_elys_lp1", "cfg_vestinfo_uatom", "vest_liquid_uatom_lp1", "empty", "empty", "empty"}
+	case "R11":
+		// the Eden vesting schedule allows one concurrent vesting per account and the provider reward
+		// account already holds it: the next provider-vesting epoch start meets "exceed max vestings"
+		prefix = []string{"perp_open_long_t1", "perp_open_short_t2", "llp_open_t1_x3", "swap_in_p1_usdc_atom_L", "swap_in_p2_elys_usdc_L", "gap_1d", "mc_claim_lp1", "commit_eden_lp1", "vest_eden_lp1", "stake_elys_lp1", "cfg_vest_max1", "gap_40d"}
 	case "R4":
 		// R1 with a large loan outstanding for 30 days under the default every-block sweep: the
 		// interest is booked, so the vault's redemption rate sits visibly above 1 (≈ 1.005)
@@ -200,7 +204,7 @@ func BuildRoot(w *World, root string, lib *OpLib) {
 
 // Variants are configuration changes permitted by validation, applied through the real gov
 // message servers (with the message's ValidateBasic when it has one) at fixture time.
-var AllVariants = []string{"", "llp_fallback_off", "mc_lps1", "mc_lps0_stakers1", "mc_stakers_tiny", "es_provider1", "es_provider0", "oracle_min", "vest_blocks0", "perp_extreme", "ss_rates_equal", "tok_inflation_deleted", "tok_window_future", "vestinfo_uatom"}
+var AllVariants = []string{"", "llp_fallback_off", "mc_lps1", "mc_lps0_stakers1", "mc_stakers_tiny", "es_provider1", "es_provider0", "oracle_min", "vest_blocks0", "perp_extreme", "ss_rates_equal", "tok_inflation_deleted", "tok_window_future", "vestinfo_uatom", "vest_max1", "ss_epoch0"}
 
 type validator interface{ ValidateBasic() error }
 
@@ -284,6 +288,28 @@ func variantGov(w *World, variant string) func(ctx sdk.Context) error {
 				return err
 			}
 			_, err := cmkeeper.NewMsgServerImpl(*app.CommitmentKeeper).UpdateVestingInfo(ctx, m)
+			return err
+		}
+	case "vest_max1":
+		// the Eden vesting schedule allows ONE concurrent vesting per account (validation: >= 0)
+		return func(ctx sdk.Context) error {
+			m := &ctypes.MsgUpdateVestingInfo{Authority: gov, BaseDenom: "ueden", VestingDenom: "uelys", NumBlocks: 1576800, VestNowFactor: 90, NumMaxVestings: 1}
+			if err := vb(m); err != nil {
+				return err
+			}
+			_, err := cmkeeper.NewMsgServerImpl(*app.CommitmentKeeper).UpdateVestingInfo(ctx, m)
+			return err
+		}
+	case "ss_epoch0":
+		// stablestake epoch length 0 (validation rejects only negative values)
+		return func(ctx sdk.Context) error {
+			p := app.StablestakeKeeper.GetParams(ctx)
+			p.EpochLength = 0
+			m := &sstypes.MsgUpdateParams{Authority: gov, Params: &p}
+			if err := vb(m); err != nil {
+				return err
+			}
+			_, err := sskeeper.NewMsgServerImpl(*app.StablestakeKeeper).UpdateParams(ctx, m)
 			return err
 		}
 	case "perp_extreme":
